@@ -403,6 +403,29 @@ func EndoScalars(maxDigit, maxShift int) []*big.Int {
 		}
 	}
 
+	// small fractions b/a mod n: a ladder or double-and-add holds the prefix multiples [j]P and [j+1]P (or [2j]P and
+	// P); formulas with an exceptional pair that is a small linear relation between the two - Q = -2P for a chord
+	// rule that takes "Q on the tangent at P" for P = Q, Q = 2P, Q = -P/2 - meet it when a*j + b = 0 (mod n) for
+	// small a, b. Members: j = -b/a, its doubles 2j, 2j+1, 4j..4j+3 (as integers below n) and neighbours.
+	for a := int64(2); a <= 8; a++ {
+		ai := new(big.Int).ModInverse(big.NewInt(a), ref.N)
+
+		for b := int64(-4); b <= 4; b++ {
+			if b == 0 {
+				continue
+			}
+
+			j := ref.Mod(new(big.Int).Mul(big.NewInt(-b), ai), ref.N)
+
+			for _, v := range []*big.Int{j, new(big.Int).Add(j, one), new(big.Int).Sub(j, one), new(big.Int).Lsh(j, 1), new(big.Int).Add(new(big.Int).Lsh(j, 1), one),
+				new(big.Int).Lsh(j, 2), new(big.Int).Add(new(big.Int).Lsh(j, 2), one), new(big.Int).Add(new(big.Int).Lsh(j, 2), big.NewInt(2)), new(big.Int).Add(new(big.Int).Lsh(j, 2), big.NewInt(3))} {
+				if v.Sign() > 0 && v.Cmp(ref.N) < 0 {
+					set[v.Text(16)] = v
+				}
+			}
+		}
+	}
+
 	// rounding boundaries of the lambda decomposition k = k1 + k2*lambda: with the reduced basis (a1, b1), (a2, b2)
 	// of the lattice {(x, y): x + y*lambda = 0 mod n} the coefficients are c1 = round(b2*k/n), c2 = round(-b1*k/n);
 	// an implementation that truncates, or rounds with too few bits of the precomputed quotients, is off by one
